@@ -14,6 +14,8 @@ use std::path::PathBuf;
 fn family_for(prop: &str) -> &'static dyn Family {
     match prop {
         "C01" | "C02" | "C04" | "C05" => &scen::factor::FactorFamily,
+        "C11" => &scen::relstore::RelstoreFamily,
+        "C19" => &scen::lattice::LatticeFamily,
         _ => {
             eprintln!("property {prop} has no simulated check (see MANIFEST.json not_applicable)");
             std::process::exit(2);
@@ -22,7 +24,7 @@ fn family_for(prop: &str) -> &'static dyn Family {
 }
 
 fn all_families() -> Vec<&'static dyn Family> {
-    vec![&scen::factor::FactorFamily]
+    vec![&scen::factor::FactorFamily, &scen::relstore::RelstoreFamily, &scen::lattice::LatticeFamily]
 }
 
 fn arg_val(args: &[String], name: &str) -> Option<String> {
